@@ -6,14 +6,14 @@
         hist            the operations (Set operations carry the branch of ini_val_set the model takes)
         store, gen      what the driver must observe on a real ini_p after replaying hist (IniStore!ObsStore/ObsGen)
         genS            (only if different) gen under the shipped capacity test
-        store0, gen0, gen0S   (only if alt differs) the same three for the shipped name matching
+        store0, gen0, gen0S   (only if they differ) the same three for the shipped name matching
    The rig compares the driver's observation with store/gen for EQUALITY; the other fields only serve to recognise the
    two registered defects on the unchanged tree - any other difference is a violation.
    BehNext: every history up to MaxDepth (exhaustive).  SimNext: random walks for `tlc -simulate`.
    TextNext: one Parse of EVERY byte string over Alphabet up to MaxDepth bytes (line splitting/classification). *)
 EXTENDS IniMenu, Json
 
-CONSTANTS Alphabet
+CONSTANTS Alphabet, SimTextLines        \* SimTextLines: lines per random text (Texts itself stays small there)
 VARIABLES alt, hist
 bvars == << lines, model, alt, hist >>
 
@@ -31,7 +31,7 @@ BehNext == /\ Len(hist) < MaxDepth
               \/ \E s \in Sections, n \in Names, v \in Values : DoSet(s, n, v)
 BehSpec == BehInit /\ [][BehNext]_bvars
 
-RandText == LET k == RandomElement(1..MaxTextLines) IN
+RandText == LET k == RandomElement(1..SimTextLines) IN
             Render(TLCEval([i \in 1..k |-> RandomElement(Menu)]), RandomElement(Styles), 1)
 SimNext == /\ Len(hist) < MaxDepth
            /\ \E c \in {RandomElement(1..10)} :
@@ -62,11 +62,12 @@ Line0 ==
    LET st   == ObsStore(lines, Q, TRUE)
        g    == ObsGen(lines, TRUE)
        gS   == ObsGen(lines, FALSE)
+       st0  == ObsStore(alt, Q, FALSE)
        r1   == [hist |-> hist, store |-> st, gen |-> g]
        r2   == IF gS = g THEN r1 ELSE [hist |-> hist, store |-> st, gen |-> g, genS |-> gS]
-   IN IF CoreSeq(alt) = CoreSeq(lines) THEN r2
+   IN IF st0 = st /\ CoreSeq(alt) = CoreSeq(lines) THEN r2
       ELSE [hist |-> hist, store |-> st, gen |-> g, genS |-> gS,
-            store0 |-> ObsStore(alt, Q, FALSE), gen0 |-> ObsGen(alt, TRUE), gen0S |-> ObsGen(alt, FALSE)]
+            store0 |-> st0, gen0 |-> ObsGen(alt, TRUE), gen0S |-> ObsGen(alt, FALSE)]
 EmitInv == PrintT(ToJson(Line0))
 ASSUME PrintT(ToJson([Q |-> Q]))
 \* the properties hold along the emitted behaviours as well
